@@ -10,7 +10,7 @@ use vbase::gens::{self, DocParams};
 use vbase::refjson::{self, show_bytes, Kind, StrLit};
 use vbase::{ensure, fail};
 
-pub const RULE: &str = "cases are (string literal, placement) pairs: the literal is placed as root value, first array element before a sibling, object key, or object value, behind 0..64 spaces and before varying trailing bytes. Literals: all 1,114,112 code points as \\uXXXX escapes / surrogate pairs in both hex cases and as raw UTF-8 (exhaustive); each feature (nine escapes, \\u BMP, surrogate pair, escaped quote, escaped backslash, raw control, 2/3/4-byte characters, each malformed kind: bad escape letter, bad hex digit in each place, lone high/low surrogate, reversed pair, high+non-\\u, invalid UTF-8 of every kind, missing quote, trailing backslash) at every position 0..=130 of strings of many lengths; random well-formed and damaged literals; keys spelled with random escape spellings. Each case goes through the decoders {in-place Value, copying Value, String, &str, borrowed Cow, object key in both Value parsers, BTreeMap<String,_> key, struct field, get by key/index, LazyValue/OwnedLazyValue as_str from serde/get/iterators} in strict mode and {Value in-place, Value copying, String} in lossy mode (Deserializer::utf8_lossy(); the `lossy` build runs the same through from_slice). The expected result is computed by the reference parser on the whole document: decoded text, borrowed iff no escape, rejected iff malformed; lossy: U+FFFD for invalid UTF-8 (as String::from_utf8_lossy) and unpaired surrogates, nothing else changed. Non-trivial = literal with an escape, a non-ASCII byte or length >= 32; distinct by (literal, placement).";
+pub const RULE: &str = "cases are (string literal, placement) pairs: the literal is placed as root value, first array element before a sibling, object key, or object value, behind 0..64 spaces and before varying trailing bytes. Literals: all 1,114,112 code points as \\uXXXX escapes / surrogate pairs in both hex cases and as raw UTF-8 (exhaustive); each feature (nine escapes, \\u BMP, surrogate pair, escaped quote, escaped backslash, raw control, 2/3/4-byte characters, each malformed kind: bad escape letter, bad hex digit in each place, lone high/low surrogate, reversed pair, high+non-\\u, invalid UTF-8 of every kind, missing quote, trailing backslash) at every position 0..=130 of strings of many lengths; random well-formed and damaged literals; keys spelled with random escape spellings. Each case goes through the decoders {in-place Value, copying Value, String, &str, borrowed Cow, object key in both Value parsers, BTreeMap<String,_> key, struct field, get by key/index, LazyValue/OwnedLazyValue as_str from serde/get/iterators} in strict mode and {Value in-place, Value copying, String, struct fields decoded after the same literal was skipped as an unknown member, String after IgnoredAny} in lossy mode (Deserializer::utf8_lossy(); the `lossy` build runs the same through from_slice). The expected result is computed by the reference parser on the whole document: decoded text, borrowed iff no escape, rejected iff malformed; lossy: U+FFFD for invalid UTF-8 (as String::from_utf8_lossy) and unpaired surrogates, nothing else changed. Non-trivial = literal with an escape, a non-ASCII byte or length >= 32; distinct by (literal, placement).";
 pub const ASSUMPTIONS: &[&str] = &["refjson string decoder is correct (self-tested against serde_json)", "String::from_utf8_lossy defines lossy replacement of invalid UTF-8"];
 
 #[derive(Deserialize)]
@@ -389,6 +389,44 @@ pub fn oracle(case: &[u8], obs: &mut Obs) -> Result<(), Fail> {
         }
         if ctx == 3 {
             check_text("lossy struct{k:String}", es(Deserializer::from_slice(&doc).utf8_lossy().deserialize::<KString>()).map(|x| Some(x.k)), &lossy_want, &doc)?;
+        }
+    }
+    // the same literal skipped (unknown member, IgnoredAny) and then decoded later in one document:
+    // what the skipper saw must not influence the later decode
+    if !lossy_build {
+        if let Some(t) = lossy_want.lit {
+            let lit = &doc[t.span.start..t.span.end];
+            let mut d = b"{\"u\":".to_vec();
+            d.extend_from_slice(lit);
+            d.extend_from_slice(b",\"k\":");
+            d.extend_from_slice(lit);
+            d.extend_from_slice(b",\"w\":[");
+            d.extend_from_slice(lit);
+            d.extend_from_slice(b",1],\"k2\":");
+            d.extend_from_slice(lit);
+            d.push(b'}');
+            #[derive(Deserialize)]
+            struct K2 {
+                k: String,
+                k2: String,
+            }
+            let r = es(Deserializer::from_slice(&d).utf8_lossy().deserialize::<K2>());
+            match r {
+                Ok(x) => {
+                    ensure!(x.k == t.text, sig("wrong-text", "lossy struct after skipped member"), "lossy struct field k of {:?} = {:?}, expected {:?}", show_bytes(&d, 300), refjson::trunc(&x.k, 120), refjson::trunc(&t.text, 120));
+                    ensure!(x.k2 == t.text, sig("wrong-text", "lossy struct after skipped member"), "lossy struct field k2 of {:?} = {:?}, expected {:?}", show_bytes(&d, 300), refjson::trunc(&x.k2, 120), refjson::trunc(&t.text, 120));
+                }
+                Err(e) => fail!(sig("rejects-valid", "lossy struct after skipped member"), "lossy struct rejected {:?}: {}", show_bytes(&d, 300), refjson::trunc(&e, 200)),
+            }
+            let mut a = b"[".to_vec();
+            a.extend_from_slice(lit);
+            a.extend_from_slice(b", ");
+            a.extend_from_slice(lit);
+            a.push(b']');
+            match es(Deserializer::from_slice(&a).utf8_lossy().deserialize::<(serde::de::IgnoredAny, String)>()) {
+                Ok((_, x)) => ensure!(x == t.text, sig("wrong-text", "lossy String after IgnoredAny"), "lossy (IgnoredAny, String) of {:?} = {:?}, expected {:?}", show_bytes(&a, 300), refjson::trunc(&x, 120), refjson::trunc(&t.text, 120)),
+                Err(e) => fail!(sig("rejects-valid", "lossy String after IgnoredAny"), "lossy (IgnoredAny, String) rejected {:?}: {}", show_bytes(&a, 300), refjson::trunc(&e, 200)),
+            }
         }
     }
     Ok(())
